@@ -7,6 +7,7 @@ import (
 	"fmt"
 	"sort"
 	"strings"
+	"time"
 
 	"github.com/openGemini/openGemini/verifsim/core"
 )
@@ -176,6 +177,14 @@ func (h *cwHist) checkQuery(run *cwRun, tr *cwTaskRun, op COp, qs, qe int, at ma
 		for k, v := range at {
 			a[k] = v
 		}
+		a["reload_left_seq_behind"] = "no"
+		if run.seqBehind != "" {
+			a["reload_left_seq_behind"] = "yes"
+		}
+		a["wal_parts"] = "1"
+		if run.c.Knobs.Partitions > 1 {
+			a["wal_parts"] = "n"
+		}
 		who := "final read"
 		if tr.task >= 0 {
 			who = fmt.Sprintf("%s op%d", cwTaskName(tr.task), tr.op)
@@ -190,6 +199,9 @@ func (h *cwHist) checkQuery(run *cwRun, tr *cwTaskRun, op COp, qs, qe int, at ma
 				}
 				if dt != "" {
 					files += "\n  diagnosis:" + dt
+				}
+				if run.seqBehindTxt != "" {
+					files += "\n  when the sequencer reload finished:" + run.seqBehindTxt
 				}
 			}
 		}
@@ -392,11 +404,20 @@ func cwWriteList(ws []*cwWrite) string {
 	return strings.Join(p, ", ")
 }
 
-func cwFileLayout(sh *shard, m int) (s string) {
-	defer func() {
-		if r := recover(); r != nil {
-			s = "?"
-		}
+func cwFileLayout(sh *shard, m int) string {
+	ch := make(chan string, 1)
+	go func() {
+		defer func() {
+			if r := recover(); r != nil {
+				ch <- "?"
+			}
+		}()
+		ch <- fileLayout(sh, m)
 	}()
-	return fileLayout(sh, m)
+	select {
+	case s := <-ch:
+		return s
+	case <-time.After(300 * time.Millisecond):
+		return "(busy)"
+	}
 }
